@@ -1,6 +1,10 @@
 //! C03: digest verification succeeds exactly when all recorded digests match.
 //!
-//! ops: `digests BYTES`, `dflip BYTES BIT`, `hashx ALGO BYTES`, `hashselftest`
+//! ops: `digests BYTES`, `dflip BYTES BIT`, `hashx ALGO BYTES`, `hashselftest`,
+//! `digmem03 b<i>|s<i> BYTES K`: `verify_digests()` on the UN-REPARSED `Package` value that `build()` (`b`) / `build_and_sign()`
+//! (`s`, Ed25519 test key) returned for configuration i — never written, never parsed; K = `-` or the index of a bit of
+//! `p.content` flipped IN MEMORY first. BYTES = what that value writes (made by the generator; the driver works on them).
+//! Observation: `<class> same=<the value, flipped or not, writes exactly BYTES with the same bit flipped>`.
 use crate::common::*;
 use crate::pkggen::*;
 use sha2::Digest as _;
@@ -52,6 +56,7 @@ pub fn eval(op: &str, a: &[&str]) -> Option<String> {
             }))
         }
         "hashselftest" => Some("ok".into()),
+        "digmem03" if a.len() == 3 => Some(observe_mem(a[0], &arg_bytes(a[1]), a[2])),
         _ => None,
     }
 }
@@ -327,26 +332,63 @@ fn fixture_paths() -> Vec<std::path::PathBuf> {
     v
 }
 
+/// the `Package` VALUE the real builder returns for configuration `i` (0 none, 1 gzip, 2 zstd; all four digests recorded),
+/// optionally signed on the way (`build_and_sign`, Ed25519 test key; deterministic: the time is clamped to the source date)
+fn build_mem(i: usize, signed: bool) -> Option<rpm::Package> {
+    let comp = [rpm::CompressionType::None, rpm::CompressionType::Gzip, rpm::CompressionType::Zstd].into_iter().nth(i)?;
+    let b = rpm::PackageBuilder::new(&format!("c03pkg{}", i), "1.2.3", "MIT", "noarch", "digest test package")
+        .compression(comp)
+        .source_date(1_600_000_000u32);
+    let b = b.with_file("/repo/test_assets/awesome.toml", rpm::FileOptions::new("/etc/c03/awesome.toml")).ok()?;
+    let b = if i > 0 { b.with_file("/repo/test_assets/awesome.py", rpm::FileOptions::new("/usr/bin/awesome")).ok()? } else { b };
+    if signed {
+        let sec = std::fs::read("/repo/tests/assets/signing_keys/secret_ed25519.asc").ok()?;
+        let signer = rpm::signature::pgp::Signer::load_from_asc_bytes(&sec).ok()?;
+        b.build_and_sign(signer).ok()
+    } else {
+        b.build().ok()
+    }
+}
+
 /// packages produced by the real builder (all four digests recorded)
 fn built_packages() -> Vec<Vec<u8>> {
     let mut out = Vec::new();
-    for (i, comp) in [rpm::CompressionType::None, rpm::CompressionType::Gzip, rpm::CompressionType::Zstd].into_iter().enumerate() {
-        let b = rpm::PackageBuilder::new(&format!("c03pkg{}", i), "1.2.3", "MIT", "noarch", "digest test package")
-            .compression(comp)
-            .source_date(1_600_000_000u32);
-        let b = match b.with_file("/repo/test_assets/awesome.toml", rpm::FileOptions::new("/etc/c03/awesome.toml")) {
-            Ok(b) => b,
-            Err(_) => continue,
-        };
-        let b = if i > 0 {
-            match b.with_file("/repo/test_assets/awesome.py", rpm::FileOptions::new("/usr/bin/awesome")) { Ok(b) => b, Err(_) => continue }
-        } else { b };
-        if let Ok(p) = b.build() {
+    for i in 0..3 {
+        if let Some(p) = build_mem(i, false) {
             let mut w = Vec::new();
             if p.write(&mut w).is_ok() { out.push(w); }
         }
     }
     out
+}
+
+/// `digmem03`: the un-reparsed value
+fn observe_mem(variant: &str, bytes: &[u8], k: &str) -> String {
+    let (signed, idx) = match (variant.as_bytes().first(), variant.get(1..).and_then(|x| x.parse::<usize>().ok())) {
+        (Some(b'b'), Some(i)) => (false, i),
+        (Some(b's'), Some(i)) => (true, i),
+        _ => return "bad-request".into(),
+    };
+    let mut p = match build_mem(idx, signed) {
+        Some(p) => p,
+        None => return "build-err".into(),
+    };
+    let mut want = bytes.to_vec();
+    if k != "-" {
+        let bit: u64 = match k.parse() { Ok(b) => b, Err(_) => return "bad-request".into() };
+        flip_bit(&mut p.content, bit);
+        let off = (bytes.len() - p.content.len().min(bytes.len())) as u64;
+        flip_bit(&mut want, off * 8 + bit);
+    }
+    let cls = match p.verify_digests() {
+        Ok(()) => "ok",
+        Err(rpm::Error::DigestMismatchError) => "err:mismatch",
+        Err(rpm::Error::UnsupportedDigestAlgorithm(_)) => "err:unsupported",
+        Err(_) => "err:other",
+    };
+    let mut w = Vec::new();
+    let same = p.write(&mut w).is_ok() && w == want;
+    format!("{} same={}", cls, same)
 }
 
 fn offsets_of(bytes: &[u8]) -> Option<[u64; 5]> {
@@ -380,6 +422,25 @@ pub fn gen(ctx: &mut Ctx) {
     let built = built_packages();
     for (i, b) in built.iter().enumerate() {
         if mine!() { emit_pkg(ctx, &format!("c03-built-{}-s{}", i, si), b); }
+    }
+
+    /* (b') the un-reparsed values `build()` / `build_and_sign()` return: as they are, and with one bit of `content` flipped in memory */
+    for signed in [false, true] {
+        for i in 0..3usize {
+            let p = match build_mem(i, signed) { Some(p) => p, None => continue };
+            let mut w = Vec::new();
+            if p.write(&mut w).is_err() { continue; }
+            let _ = std::fs::create_dir_all("work");
+            let tag = format!("{}{}", if signed { "s" } else { "b" }, i);
+            let a = blob_arg("work", &format!("c03-mem-{}-s{}", tag, si), &w);
+            if mine!() { ctx.req(&format!("digmem03 {} {} -", tag, a)); }
+            let nbits = p.content.len() as u64 * 8;
+            let mut r = Rng::new(ctx.seed ^ 0x3E3 ^ ((i as u64) << 8) ^ signed as u64);
+            for j in 0..ctx.q(12u64, 200) {
+                let bit = match j { 0 => 0, 1 => nbits.saturating_sub(1), _ => r.below(nbits.max(1)) };
+                if nbits > 0 && mine!() { ctx.req(&format!("digmem03 {} {} {}", tag, a, bit)); }
+            }
+        }
     }
 
     /* (a) hand-encoded: the full product of {absent, correct, wrong} for the four digests × algorithm numbers */
